@@ -20,7 +20,7 @@ def frontend_histories(rng, tier):
     for start in starts:
         sess = "session=%s:%s:%d:%d" % (NWK.hex(), APP.hex(), ADDR, start)
         for region in ([5, 8] if tier == "quick" else range(9)):
-            for variant in range(6 if tier == "quick" else 30):
+            for variant in range(6 if tier == "quick" else 8):
                 r = rng.fork("fe%d-%d-%d" % (start, region, variant))
                 # async: a list of sends with scripted window outcomes
                 ops, down = [], 0
@@ -125,9 +125,8 @@ def run(rep, tier, rng):
     io = core.run_lines(core.harness_bin(), fe)
     bad = 0
     frames = 0
-    for c, o in zip(fe, io):
+    for c, o, v in zip(fe, io, core.pmap(frontend_oracle, fe, io)):
         frames += len(TX.findall(o))
-        v = frontend_oracle(c, o)
         if v:
             bad += 1
             if bad <= 3:
